@@ -423,12 +423,36 @@ fn check_inf(c: &AggCase, obs: &mut Obs) -> CheckResult {
             v.map(|v| match (mode, k % 4) {
                 (0, _) => f64::INFINITY,
                 (1, _) => f64::NEG_INFINITY,
-                (_, 0) => f64::INFINITY,
-                (_, 1) => f64::NEG_INFINITY,
+                (2, 0) | (2, 1) => f64::INFINITY,
+                (3, 0) | (3, 1) => f64::NEG_INFINITY,
+                (4, 0) => f64::INFINITY,
+                (4, 1) => f64::NEG_INFINITY,
                 _ => v,
             })
         })
         .collect();
+    // infinities of one sign only: sum and mean (also masked) are that infinity by definition
+    let n_pos = x.iter().flatten().filter(|v| **v == f64::INFINITY).count();
+    let n_neg = x.iter().flatten().filter(|v| **v == f64::NEG_INFINITY).count();
+    if (n_pos > 0) != (n_neg > 0) && c.enc != Enc::F32 {
+        let want = if n_pos > 0 { f64::INFINITY } else { f64::NEG_INFINITY };
+        let (gs, gm, gf): (Option<f64>, f64, f64) = match c.enc {
+            Enc::OptF64 | Enc::OptI32 => {
+                let d: Vec<Option<f64>> = materialize(&x);
+                let all: Vec<bool> = vec![true; d.len()];
+                (with_src!(c, d, |it| sa::vsum(it)), with_src!(c, d, |it| sa::vmean(it)), sa::vmean_filter(d.clone(), all, c.mp.min(1)))
+            },
+            _ => {
+                let d: Vec<f64> = materialize(&x);
+                let all: Vec<bool> = vec![true; d.len()];
+                (with_src!(c, d, |it| sa::vsum(it)), with_src!(c, d, |it| sa::vmean(it)), sa::vmean_filter(d.clone(), all, c.mp.min(1)))
+            },
+        };
+        if gs != Some(want) || gm != want || gf != want {
+            return fail("sum_mean:one-signed-infinity", format!("series {:?}: vsum {:?}, vmean {:?}, vmean_filter(all selected) {:?}, the definition gives {:?}", x, gs, gm, gf, want));
+        }
+        obs.class("one_signed_infinity_sum");
+    }
     let n_inf = x.iter().flatten().filter(|v| v.is_infinite()).count();
     obs.set_nontrivial(n_inf >= 1 && x.len() >= 2);
     obs.class_if(mode <= 1 && n_inf >= 1, "every_valid_element_infinite");
